@@ -543,4 +543,84 @@ theorem Reachable.doneok {s : St} (h : Reachable s) (hd : isDone s.closing = tru
   · have := h'.k; cases hc : s.closing <;> simp_all [cls, isDone]
   · exact h'
 
+/-! ### a pending open that completes (ok / raises) at any moment -/
+
+theorem inv_openDone {s : St} (h : Inv s) (r : OpenRes) : Inv (openDone s r).1 := by
+  unfold openDone
+  split
+  · exact h
+  · split
+    · rename_i dl o dm cm hr
+      have hd := down_of_recon h (by rw [hr]; simp)
+      exact inv_establish (s := { s with recon := .idle }) ⟨hd.1, h.disc_prod hd.1, h.disc_lp hd.1, hd.2, h.cons_le⟩ _ _
+    · rename_i dl o hr
+      have hd := down_of_recon h (by rw [hr]; simp)
+      exact inv_openFailed (s := { s with recon := .idle }) ⟨hd.1, h.disc_prod hd.1, h.disc_lp hd.1, hd.2, h.cons_le⟩ _
+    · exact h
+
+theorem zinv_openDone {s : St} (hi : Inv s) (h : ZInv s) (r : OpenRes) : ZInv (openDone s r).1 := by
+  rcases h with h | h | h
+  · unfold openDone
+    split
+    · exact Or.inl h
+    · split
+      · -- the attempt succeeds: `connection_established` (while close() waits in the join, or before close())
+        refine Or.inl ⟨h.k, ?_, ?_⟩
+        · intro h1; simp [establish] at h1
+        · intro _; simp [establish, reconOwner]
+      · rename_i dl o hr
+        have hd := down_of_recon hi (by rw [hr]; simp)
+        have hw : s.writer = none := h.j hd.1 hd.2 (by intro d; rw [hr]; simp)
+        have hu := h.u
+        refine Or.inl ⟨?_, ?_, ?_⟩
+        · unfold openFailed; split <;> exact h.k
+        · intro _ _ _; unfold openFailed; split <;> exact hw
+        · intro h1
+          have h1' : cls s.closing ≠ 0 := by revert h1; unfold openFailed; split <;> exact id
+          have hu' := hu h1'
+          rw [hr] at hu'
+          unfold openFailed; split
+          · simp [reconOwner]
+          · simpa [reconOwner] using hu'
+      · exact Or.inl h
+  · -- close() is inside `wait_closed()`: no attempt is in flight
+    have : (openDone s r).1 = s := by
+      unfold openDone
+      split
+      · rfl
+      · simp [h.halted.recon]
+    rw [this]; exact Or.inr (Or.inl h)
+  · have hd : isDone s.closing = true := by
+      have := h.k
+      cases hc : s.closing <;> simp_all [cls, isDone]
+    have : (openDone s r).1 = s := by simp [openDone, hd]
+    rw [this]; exact Or.inr (Or.inr h)
+
+/-- reachability with the completion of a pending open as an additional move -/
+def Reach1 (s : St) : Prop := ∃ cfg rc sc ms, s = run1 (init cfg rc sc) ms
+
+theorem zinv_run1 {s : St} (hi : Inv s) (h : ZInv s) (ms : List (Ev ⊕ OpenRes)) : Inv (run1 s ms) ∧ ZInv (run1 s ms) := by
+  induction ms generalizing s with
+  | nil => exact ⟨hi, h⟩
+  | cons m ms ih =>
+    cases m with
+    | inl e => exact ih (inv_step hi e) (zinv_step hi h e)
+    | inr r => exact ih (inv_openDone hi r) (zinv_openDone hi h r)
+
+theorem Reach1.doneok {s : St} (h : Reach1 s) (hd : isDone s.closing = true) : DoneOK s := by
+  obtain ⟨cfg, rc, sc, ms, rfl⟩ := h
+  rcases (zinv_run1 (inv_init cfg rc sc) (zinv_init cfg rc sc) ms).2 with h' | h' | h'
+  · have := h'.k; cases hc : (run1 (init cfg rc sc) ms).closing <;> simp_all [cls, isDone]
+  · have := h'.k; cases hc : (run1 (init cfg rc sc) ms).closing <;> simp_all [cls, isDone]
+  · exact h'
+
+theorem run1_inl (s : St) (es : List Ev) : run1 s (es.map Sum.inl) = (run s es).1 := by
+  induction es generalizing s with
+  | nil => rfl
+  | cons e es ih => simp only [List.map_cons, run1, run]; exact ih _
+
+theorem Reachable.reach1 {s : St} (h : Reachable s) : Reach1 s := by
+  obtain ⟨cfg, rc, sc, es, rfl⟩ := h
+  exact ⟨cfg, rc, sc, es.map Sum.inl, (run1_inl _ es).symm⟩
+
 end PlumVerif.Conn
